@@ -197,6 +197,9 @@ def runner(rep, tier, seed, replay):
         got = gen(rep, tier, seed)
         log("[C16] %s: %d lines" % (origin, len(got)))
         cases += got
+    # lines whose end is where the script path's own pre-processing works (continuation folding, trimming): always part of the run
+    for t in ("vpa a\\\\", "vpa a b\\\\\\\\", "vpa 'q r' b\\\\", "vmk 5 0 x\\\\", "vpa a\\\\ ; vpa b\\\\", "vpa \"x y\" ;  vpa z\\\\"):
+        cases.append({"text": t, "origin": "C16-edge", "feat": {"edge": "escaped-backslash-last"}})
     seen = set()
     uniq = []
     for c in cases:
@@ -259,7 +262,7 @@ def runner(rep, tier, seed, replay):
             if len(strata[k]) > depth and len(chosen) < budget:
                 chosen.append(strata[k][depth])
         depth += 1
-    chosen = sorted(set(chosen))
+    chosen = sorted(set(chosen) | {i for i in same if cases[i]["origin"] == "C16-edge"})
     log("[C16] process level: %d candidate clusters, %d lines x %d entries" % (len(clusters), len(chosen), len(ENTRIES)))
     jobs = [wrap(cases[i], e) for i in chosen for e in ENTRIES]
     results = run_cases(jobs)
@@ -295,7 +298,9 @@ def runner(rep, tier, seed, replay):
         if n % 499 == 0:
             rep.sample({"line": c["text"], "origin": c["origin"], "c": {"records": base["recs"][:3], "status": base["status"]}})
     # ---- prompt
-    pool = [i for i in chosen if prompt_ok(cases[i]["text"])]
+    # (a helper told to read its standard input whose input redirection is written without a blank - C04-attached-input: no
+    # redirection happens - reads the terminal at the prompt and nothing under -c: not comparable)
+    pool = [i for i in chosen if prompt_ok(cases[i]["text"]) and not re.search(r" r( .*)?(<<<|<)[^ <]", cases[i]["text"])]
     nprompt = min(len(pool), 100 if tier == "quick" else 1500)
     # the end of the line is where the prompt's own pre-processing (completeness test, continuation lines) matters: lines that
     # end in a backslash or in an escaped character are typed first
